@@ -84,9 +84,10 @@ def _redundant_sense(lex: lmf.Lexicon, ids: _Ids) -> _Result:
 
 def _redundant_entry(lex: lmf.Lexicon, ids: _Ids) -> _Result:
     """redundant lexical entry with the same lemma and synset"""
-    redundant = _multiples((e['lemma']['writtenForm'], s['synset'])
+    # count each synset once per entry; repeats in one entry are W202
+    redundant = _multiples((e['lemma']['writtenForm'], synset)
                            for e in _entries(lex)
-                           for s in _senses(e))
+                           for synset in sorted({s['synset'] for s in _senses(e)}))
     return {form: {'synset': synset} for form, synset in redundant}
 
 
